@@ -792,6 +792,8 @@ func main() {
 		workerMain(os.Args[2:])
 	case "replay":
 		os.Exit(replayMain(os.Args[2]))
+	case "auditchild":
+		os.Exit(auditChildMain(os.Args[2:]))
 	case "list":
 		var ids []string
 		for id := range checks {
